@@ -1,13 +1,54 @@
-import TinsModel.Wire.Wifi.Family
-import TinsModel.Basic.CursorLemmas
-import TinsModel.Basic.CodecLemmas
-import TinsModel.Wire.ChainLemmas
-import TinsModel.Wire.IfaceLemmas
+import TinsModel.Wire.Wifi.TheoremsDot11
+import TinsModel.Wire.Wifi.TheoremsDot11Api
+import TinsModel.Wire.Wifi.TheoremsDot11Reparse
+import TinsModel.Wire.Wifi.TheoremsEapol
+import TinsModel.Wire.Wifi.TheoremsEapolReparse
+import TinsModel.Wire.Wifi.TheoremsRadioTap
+import TinsModel.Wire.Wifi.TheoremsCodec
+import TinsModel.Wire.Wifi.TheoremsSetters
 /-
   Per-layer theorems of the Wifi family for the four wire properties (C01 parse_safe, C02 writesOnly,
-  C03 reparse, C04 codec inverses).  See TinsModel/Wire/Transport/Theorems.lean for the worked example (UDP).
+  C03 reparse, C04 codec inverses), split by class group:
+    TheoremsDot11     the Dot11 class family (stated over an arbitrary class layout, so all classes at once):
+                      parse safety incl. the tagged-parameter loop and `Dot11::from_bytes`, size-exact writer
+    TheoremsDot11Api  the size invariant over API histories (constructors, setters, add/remove option)
+    TheoremsDot11Reparse  C03: TLV list round trip, parse ∘ serialize = id on parsed objects
+    TheoremsEapol     RC4EAPOL / RSNEAPOL / `EAPOL::from_bytes`
+    TheoremsEapolReparse  C03 for the EAPOL key frames
+    TheoremsCodec     C04: decode ∘ encode = id for every typed tagged option and RSNInformation (explicit Repr)
+    TheoremsSetters   C04: bit-field / member setters and getters of the raw structs form a last-write map
+    TheoremsRadioTap  RadioTap: the RadioTapParser walk is memory-safe and terminates, parse safety, FCS trailer writer
 -/
 namespace Tins.Wire.Wifi
 open Tins Tins.Wire
+
+/-! non-vacuity: the hypotheses of the theorems are met by real, non-trivial objects -/
+
+/-- a beacon with an SSID and a rates element parses, is well-formed, and its header size is what is written -/
+example : ∃ d, Dot11.parse "Dot11Beacon" ([0x80, 0] ++ List.replicate 34 1 ++ [0, 3, 97, 98, 99, 1, 2, 0x82, 0x84]) = .ok (d, .none)
+    ∧ d.opts.length = 2 ∧ d.hdrSize = 45 := ⟨_, rfl, rfl, rfl⟩
+
+/-- a truncated tagged parameter is rejected with `malformed_packet`, not read past the end -/
+example : Dot11.parse "Dot11ProbeRequest" ([0x40, 0] ++ List.replicate 22 0 ++ [0, 5, 1, 2]) = .throw .malformedPacket := rfl
+
+/-- the API history add, add, remove keeps the cached size exact -/
+example :
+    let d0 := Dot11.create "Dot11Beacon" ⟨.mgmt, [12], true, false⟩ (zeros 6) (zeros 6)
+    let d := Dot11.removeOption (Dot11.addTagged (Dot11.addTagged d0 0 [97, 98, 99]) 3 [6]) 0
+    d.optSize = 3 ∧ Dot11.wireSize d.opts = 3 ∧ d.hdrSize = 39 := by decide
+
+/-- an RSN EAPOL key frame with a 2-byte key and 1 byte of payload -/
+example : ∃ e, Eapol.parse true ([2, 3, 0, 98, 2] ++ List.replicate 92 0 ++ [0, 2, 7, 8, 9]) = .ok (e, .raw [9]) ∧ e.key = [7, 8] :=
+  ⟨_, rfl, rfl⟩
+
+/-- a RadioTap header with TSFT + FLAGS (FCS bit set) in front of an ACK frame and its FCS: the walk finds FLAGS, the
+    FCS is cut off the inner frame and `trailer_size()` is 4 -/
+example : RadioTap.parse ([0, 0, 17, 0, 3, 0, 0, 0] ++ List.replicate 8 7 ++ [0x10] ++
+    [0xd4, 0, 0, 0, 1, 2, 3, 4, 5, 6] ++ [9, 9, 9, 9]) =
+    .ok (⟨[0, 0, 17, 0], [3, 0, 0, 0] ++ List.replicate 8 7 ++ [0x10]⟩, .cls "Dot11*" [0xd4, 0, 0, 0, 1, 2, 3, 4, 5, 6] false) := rfl
+example : RadioTap.trl ⟨[0, 0, 17, 0], [3, 0, 0, 0] ++ List.replicate 8 7 ++ [0x10]⟩ = 4 := rfl
+
+/-- a present-word chain whose `ext` bits run off the end of the header is rejected, not followed -/
+example : RadioTap.parse ([0, 0, 12, 0, 0, 0, 0, 0x80, 0, 0, 0, 0x80] ++ List.replicate 8 0) = .throw .malformedPacket := rfl
 
 end Tins.Wire.Wifi
